@@ -55,17 +55,47 @@ func genROM(seed int64) []byte {
 	emit(0x31, 0xfe, 0xdf)             // LD SP,DFFE
 	emit(0x3e, 0x05, 0xe0, 0xff)       // IE = VBlank | Timer
 	emit(0x3e, 0x05, 0xe0, 0x07, 0xfb) // TAC = 5, EI
-	if lcdOffForGood {
-		emit(0x3e, 0x11, 0xe0, 0x40)
+	// a scene worth rendering: LCD off, some tile data, forty sprites crowded into a 48 x 48 pixel area (so that several
+	// opaque ones overlap on most of their lines), palettes that tell the shades apart; the table goes to OAM by DMA
+	emit(0x3e, 0x11, 0xe0, 0x40)
+	emit(0x21, 0x00, 0x80)
+	for i := 0; i < 96; i++ {
+		emit(0x3e, []int{0xff, 0x0f, 0xf0, 0x3c, 0xaa, 0x81}[rng.Intn(6)]|rng.Intn(256), 0x22)
+	}
+	emit(0x21, 0x00, 0xc1)
+	for i := 0; i < 40; i++ {
+		for _, v := range []int{16 + rng.Intn(40), 8 + rng.Intn(40), rng.Intn(6), []int{0x00, 0x10, 0x20, 0x40, 0x80, 0x90}[rng.Intn(6)]} {
+			emit(0x3e, v, 0x22)
+		}
+	}
+	emit(0x3e, 0xe4, 0xe0, 0x47, 0x3e, 0xd2, 0xe0, 0x48, 0x3e, 0x1b, 0xe0, 0x49)
+	emit(0x3e, 0xc1, 0xe0, 0x46)
+	for i := 0; i < 170; i++ {
+		emit(0x00)
+	}
+	if !lcdOffForGood {
+		emit(0x3e, 0x93, 0xe0, 0x40)
+	}
+	// every eighth generated ROM ends in STOP: the hardware goes on, cycle by cycle, around a stopped CPU
+	stopAt := -1
+	if seed%8 == 7 {
+		stopAt = len(code) + 100 + rng.Intn(400)
 	}
 	for len(code) < 0x3000 {
-		switch rng.Intn(16) {
+		if stopAt >= 0 && len(code) >= stopAt {
+			emit(0x10, 0x00)
+			stopAt = -1
+		}
+		switch rng.Intn(17) {
+		case 16:
+			// CB-prefixed operations on (HL), BIT n,(HL) most of all
+			emit(0x21, rng.Intn(256), 0xc0+rng.Intn(0x1e), 0xcb, []int{0x46, 0x4e, 0x7e, 0x66, 0x86, 0xc6, 0x16, 0x36, 0x5e}[rng.Intn(9)])
 		case 0:
 			emit(0x3e, rng.Intn(256), 0xe0, 0x04) // DIV
 		case 1:
 			emit(0x3e, 0xf0+rng.Intn(16), 0xe0, 0x05) // TIMA close to overflow
 		case 2:
-			emit(0x3e, rng.Intn(256), 0xe0, 0x06) // TMA
+			emit(0x3e, rng.Intn(0xc0), 0xe0, 0x06) // TMA (at least 256 cycles between overflows: no interrupt storm)
 		case 3:
 			emit(0x3e, 4+rng.Intn(4), 0xe0, 0x07) // TAC
 		case 4:
@@ -76,7 +106,7 @@ func genROM(seed int64) []byte {
 			if lcdOffForGood {
 				emit(0x3e, []int{0x11, 0x13, 0x01}[rng.Intn(3)], 0xe0, 0x40)
 			} else {
-				emit(0x3e, []int{0x91, 0x11, 0x91, 0x93}[rng.Intn(4)], 0xe0, 0x40) // LCDC
+				emit(0x3e, []int{0x91, 0x11, 0x93, 0x93, 0x97}[rng.Intn(5)], 0xe0, 0x40) // LCDC
 			}
 		case 13:
 			emit(0x3e, []int{0x05, 0x01, 0x00, 0x1b, 0xe0, 0x04, 0x1f}[rng.Intn(7)], 0xe0, 0xff) // IE: the timer request must not depend on it
@@ -96,7 +126,9 @@ func genROM(seed int64) []byte {
 		case 8:
 			emit(0x21, rng.Intn(256), 0xc0+rng.Intn(0x1e), 0x36, rng.Intn(256)) // LD HL,nn; LD (HL),n
 		case 9:
-			emit(0x76) // HALT (an interrupt will come)
+			// HALT, with the timer interrupt enabled and due within 64 cycles (IE may have been cleared above: an idle
+			// program exercises nothing)
+			emit(0x3e, 0x05, 0xe0, 0xff, 0x3e, 0x05, 0xe0, 0x07, 0x3e, 0xf0+rng.Intn(16), 0xe0, 0x05, 0x76)
 		case 10:
 			emit(0x3e, rng.Intn(256), 0xe0, 0x0f) // IF
 		case 11, 12:
@@ -127,7 +159,7 @@ func romList(c *Ctx, tmp string, n int) []string {
 	for i := 0; i < n; i++ {
 		if i%2 == 0 {
 			p := filepath.Join(tmp, fmt.Sprintf("gen-%d.gb", i))
-			os.WriteFile(p, genROM(rng.Int63n(1<<40)&^3|int64(i/2%4)), 0o644)
+			os.WriteFile(p, genROM(rng.Int63n(1<<40)&^7|int64(i/2%8)), 0o644)
 			out = append(out, p)
 		} else {
 			p := filepath.Join(base, cands[(i/2)%len(cands)])
@@ -329,7 +361,7 @@ func systemMain(c *Ctx) {
 		return
 	}
 	w := trace.NewWriter(c.Out, "system", 40000)
-	tmp, _ := os.MkdirTemp("", "verif-roms")
+	tmp, _ := os.MkdirTemp(c.Out, "verif-roms") // inside the run's own scratch directory
 	defer os.RemoveAll(tmp)
 	if c.Mode == "rerun" {
 		scs, err := trace.ReadAll(c.In)
@@ -361,10 +393,14 @@ func systemMain(c *Ctx) {
 	if c.Want("cycles") {
 		n, frames := 3, 1
 		if c.Thorough() {
-			n, frames = 12, 3
+			n, frames = 16, 3
 		}
 		rng := c.Rand(2601)
-		for i, rom := range romList(c, tmp, n) {
+		all := romList(c, tmp, 16)
+		if n < len(all) {
+			all = []string{all[0], all[1], all[2], all[14]} // all[14] is the generated ROM that ends in STOP
+		}
+		for i, rom := range all {
 			w.Put(cyclesRun(fmt.Sprintf("system-cycles-%d", i), rom, frames, rng.Intn(6)))
 		}
 	}
